@@ -273,7 +273,8 @@ theorem isProbDense_iff (row : List XRat) : isProbDense row = true ↔ RowDist 0
   rw [isProbDense_eq_loop]; exact isProbLoop_iff row
 
 example : isProbLoop [.fin (1/4), .fin (3/4)] = true ∧ isProbLoop [.fin (1/2), .nan] = false ∧
-    isProbDense [.pinf, .ninf] = false ∧ isProbSparse [.fin (3/2), .fin (-1/2)] = false := by decide +kernel
+    isProbDense [.pinf, .ninf] = false ∧ isProbSparse [.fin (3/2), .fin (-1/2)] = false ∧
+    isProbSparseAbs [.fin (3/2), .fin (-1/2)] = false := by decide +kernel
 
 /-! ## storage threshold of the sparse classes -/
 
@@ -365,11 +366,11 @@ theorem sumQ_abs_sub (qs : List Rat) (q : Rat) (hq : q ∈ qs) :
         have hx : 0 ≤ (if x < 0 then -x else x) - x := by split_ifs with hx <;> linarith
         linarith
 
-/-- **isProbability(SparseMatrix2D) is sound up to the tolerance**: an accepted row is finite, has entries ≥ -tol
-    and sums to one within the tolerance.  (It is NOT complete for the strict notion and NOT as strict as the dense
-    test: [1+4e-7, -4e-7] is accepted; see the example below.) -/
-theorem isProbSparse_sound (row : List XRat) (h : isProbSparse row = true) : RowDist (-tol) tol row := by
-  simp only [isProbSparse, Bool.not_eq_true', Bool.or_eq_false_iff, diffSmall, Bool.not_eq_false'] at h
+/-- AS-FOUND FORM (sum and |.|-sum): **sound only up to the tolerance**: an accepted row is finite, has entries ≥ -tol
+    and sums to one within the tolerance.  (NOT as strict as the dense test: [1+4e-7, -4e-7] is accepted, see
+    `isProbSparseAbs_accepts_negative`; that witness belongs to this form only.) -/
+theorem isProbSparseAbs_sound (row : List XRat) (h : isProbSparseAbs row = true) : RowDist (-tol) tol row := by
+  simp only [isProbSparseAbs, Bool.not_eq_true', Bool.or_eq_false_iff, diffSmall, Bool.not_eq_false'] at h
   obtain ⟨s, hs, h1, h2⟩ := (eqSmall_one_iff _).1 h.1
   obtain ⟨qs, hrow, hq⟩ := sumX_eq_fin row s hs
   subst hrow
@@ -386,8 +387,27 @@ theorem isProbSparse_sound (row : List XRat) (h : isProbSparse row = true) : Row
   · rw [← hq] at this; linarith
   · have ht := tol_pos; linarith [not_lt.1 hneg]
 
-example : isProbSparse [.fin (1 + 4/10000000), .fin (-4/10000000)] = true ∧
-    isProbDense [.fin (1 + 4/10000000), .fin (-4/10000000)] = false := by decide +kernel
+/-- the as-found sparse test accepts a row with a negative entry that the dense test rejects — and the repaired one
+    (sign test on the stored values) rejects it too -/
+theorem isProbSparseAbs_accepts_negative :
+    isProbSparseAbs [.fin (1 + 4/10000000), .fin (-4/10000000)] = true ∧
+    isProbDense [.fin (1 + 4/10000000), .fin (-4/10000000)] = false ∧
+    isProbSparseSign [.fin (1 + 4/10000000), .fin (-4/10000000)] = false := by decide +kernel
+
+/-- REPAIRED FORM (fixes/C05-2): the sparse test IS the dense test, row by row … -/
+theorem isProbSparseSign_eq_dense (row : List XRat) : isProbSparseSign row = isProbDense row := rfl
+
+/-- … hence **exact**: it accepts precisely the rows that are finite, non-negative and sum to one within the tolerance -/
+theorem isProbSparseSign_iff (row : List XRat) : isProbSparseSign row = true ↔ RowDist 0 tol row :=
+  isProbDense_iff row
+
+/-- whichever of the two forms the source has: an accepted row is finite, ≥ -tol, sums to one within the tolerance -/
+theorem isProbSparse_sound (row : List XRat) (h : isProbSparse row = true) : RowDist (-tol) tol row := by
+  unfold isProbSparse at h
+  split_ifs at h
+  · obtain ⟨qs, hq, hge, h1, h2⟩ := (isProbSparseSign_iff row).1 h
+    exact ⟨qs, hq, fun q hq' => by have := hge q hq'; have := tol_pos; linarith, h1, h2⟩
+  · exact isProbSparseAbs_sound row h
 
 /-! ## the setter state machine: validate-then-commit -/
 
@@ -1288,8 +1308,8 @@ theorem copyObs_preserves (k : Rep) (base : St) (O : Nat) (om : Tab3) (s : St) (
           simpa [rowOf, List.map_map, Function.comp_def] using this
       · cases h
 
-/-- the sparse test accepts every strictly valid row (it is complete for the dense notion, sound only up to −tol) -/
-theorem isProbSparse_complete (row : List XRat) (h : RowDist 0 tol row) : isProbSparse row = true := by
+/-- the as-found sparse test accepts every strictly valid row (complete for the dense notion, sound only up to −tol) -/
+theorem isProbSparseAbs_complete (row : List XRat) (h : RowDist 0 tol row) : isProbSparseAbs row = true := by
   obtain ⟨qs, hrow, hge, h1, h2⟩ := h
   subst hrow
   have habs : (qs.map XRat.fin).map xabs = qs.map XRat.fin := by
@@ -1300,7 +1320,14 @@ theorem isProbSparse_complete (row : List XRat) (h : RowDist 0 tol row) : isProb
     simp only [Function.comp, xabs_fin]
     rw [if_neg (not_lt.2 this)]
   have hs := (eqSmall_one_iff (sumX (qs.map XRat.fin))).2 ⟨sumQ qs, sumX_fin qs, h1, h2⟩
-  simp only [isProbSparse, habs, diffSmall, hs, Bool.not_true, Bool.or_self, Bool.not_false]
+  simp only [isProbSparseAbs, habs, diffSmall, hs, Bool.not_true, Bool.or_self, Bool.not_false]
+
+/-- whichever form the source has, a strictly valid row is accepted -/
+theorem isProbSparse_complete (row : List XRat) (h : RowDist 0 tol row) : isProbSparse row = true := by
+  unfold isProbSparse
+  split_ifs
+  · exact (isProbSparseSign_iff row).2 h
+  · exact isProbSparseAbs_complete row h
 
 /-! ## soundness of the checkers the driver evaluates on the implementation's output (L3) -/
 
